@@ -40,28 +40,32 @@ func genCrashCase(t *rapid.T) lab.CrashCase {
 	c := lab.CrashCase{}
 	// one scenario in four keeps invocation-dependent scripts (retries that succeed later, continuous checks failing at
 	// run k): the outcome-equality clause is then not judged, all the other clauses are
-	if rapid.IntRange(0, 3).Draw(t, "anyOutcome") == 3 {
+	if lab.Pct(t, 25, "anyOutcome") {
 		c.Sc = pfRecoveryAny.Gen(t)
 		c.AnyOutcome = true
 	} else {
 		c.Sc = pfRecovery.Gen(t)
 		constantScripts(&c.Sc)
 	}
-	if os.Getenv("VERIF_TIER") == "thorough" && rapid.IntRange(0, 3).Draw(t, "allPrefixes") == 0 {
+	if os.Getenv("VERIF_TIER") == "thorough" && lab.Pct(t, 25, "allPrefixes") {
 		c.All = true
 	} else {
-		n := rapid.IntRange(6, 14).Draw(t, "nPoints")
+		n := lab.Rng(t, 6, 14, "nPoints")
 		for i := 0; i < n; i++ {
-			c.Points = append(c.Points, rapid.IntRange(0, 1000).Draw(t, "point"))
+			c.Points = append(c.Points, lab.Rng(t, 0, 1000, "point"))
 		}
 	}
 	// one scenario in 8 is also cross-validated with a real SIGKILL of a child process on a file-backed store
-	if rapid.IntRange(0, 7).Draw(t, "realKill") == 7 {
-		c.Kill = append(c.Kill, rapid.IntRange(0, 1000).Draw(t, "killPoint"))
+	if lab.Pct(t, 12, "realKill") {
+		c.Kill = append(c.Kill, lab.Rng(t, 0, 1000, "killPoint"))
 	}
-	ns := rapid.IntRange(0, 2).Draw(t, "nSecond")
+	ns := lab.Rng(t, 0, 2, "nSecond")
 	for i := 0; i < ns; i++ {
-		c.Second = append(c.Second, rapid.IntRange(0, 1000).Draw(t, "second"))
+		c.Second = append(c.Second, lab.Rng(t, 0, 1000, "second"))
+	}
+	// one case in three with second crashes goes on to a third crash in the second recovery
+	if ns > 0 && lab.Pct(t, 33, "third") {
+		c.Third = append(c.Third, lab.Rng(t, 0, 1000, "thirdPoint"))
 	}
 	return c
 }
@@ -71,12 +75,15 @@ func crashSpec(id string) vprop.Spec[lab.CrashCase] {
 		ID:  id,
 		Gen: genCrashCase,
 		Check: func(c lab.CrashCase) (res vprop.Result) {
-			res.Sample = map[string]any{"scenario": c.Sc.Summary(), "points_permille": c.Points, "every_prefix": c.All, "second_permille": c.Second, "real_kill_permille": c.Kill}
+			res.Sample = map[string]any{"scenario": c.Sc.Summary(), "points_permille": c.Points, "every_prefix": c.All, "second_permille": c.Second, "third_permille": c.Third, "real_kill_permille": c.Kill}
 			if c.All {
 				res.Label("every-prefix")
 			}
 			if len(c.Second) > 0 {
 				res.Label("with-second-crash")
+			}
+			if len(c.Third) > 0 {
+				res.Label("with-third-crash")
 			}
 			if c.AnyOutcome {
 				res.Label("invocation-dependent-outcomes")
